@@ -33,7 +33,7 @@ RULE = (
 )
 ASSUMPTIONS = ["helper parameters annotated Any (eq/ne/gt/ge/lt/le value, call_method args) are exercised as constants only"]
 FLOORS = {"bracketings_compared": (1500, 30000), "identity_checks": (400, 8000), "split_checks": (1500, 30000), "rshift_checks": (400, 8000),
-          "param_key_checks": (400, 8000), "reuse_checks": (300, 6000), "helper_cases": (170, 170), "helper_cases_with_option_argument": (70, 70), "helpers_covered": (60, 60), "helper_reapplications": (160, 160), "pipeline_history_steps": (3000, 60000)}
+          "param_key_checks": (400, 8000), "reuse_checks": (300, 6000), "helper_cases": (170, 170), "helper_cases_with_option_argument": (70, 70), "helpers_covered": (60, 60), "helper_reapplications": (160, 160), "pipeline_history_steps": (3000, 60000), "stateful_step_evaluations": (36, 36)}
 SHARDS_QUICK = 2
 
 
@@ -472,6 +472,65 @@ STEP_NAMES = ["s_add", "s_two", "plain", "helper", "nested", "empty", "tuple", "
 OPTIONS = [{"Q": "q"}, {"AMOUNT": 5, "Q": 0, "S": {"P": 7}, "H": ("hh",), "K": 9}, {"AMOUNT": None, "S": {"P": "sp"}, "FN": _alt_fn}, {}, {"Q": 1, "K": "k", "FN": _alt_fn}]
 
 
+class _Acc:
+    """A stateful callable object (a legal plain-callable step): counts how often it has been applied."""
+
+    def __init__(self):
+        self.seen = []
+
+    def __call__(self, x):
+        self.seen.append(x)
+        return ("acc", x, len(self.seen))
+
+    def method(self, x):
+        return self(x)
+
+
+def stateful_steps(ctx):
+    """Plain callables that carry state (an object with __call__, a functools.partial with a mutable bound argument, a
+    bound method): every evaluation of a pipeline works on its own copy of the step as it was built, so the composition
+    laws hold for them like for pure functions whatever was evaluated before, and the user's own object is never touched."""
+    import functools
+
+    def bump(box, x):
+        box.append(x)
+        return ("bump", x, len(box))
+
+    makers = {
+        "callable-object": lambda: (lambda a: (a, a, lambda: len(a.seen)))(_Acc()),
+        "bound-method": lambda: (lambda a: (a.method, a, lambda: len(a.seen)))(_Acc()),
+        "partial-with-mutable-argument": lambda: (lambda box: (functools.partial(bump, box), box, lambda: len(box)))([]),
+    }
+    for name, make in makers.items():
+        step, owner, used = make()
+        tag = "bump" if name.startswith("partial") else "acc"
+        p = Pipeline() + step
+        q = Pipeline() + (lambda v: ("q", v))
+        both = p + q
+        W = {"family": "stateful-steps", "step": name}
+        outs = []
+        for _ in range(3):
+            a = both.transform("x", {})
+            b = q.transform(p.transform("x", {}), {})
+            c = (Option("X0", "x") >> both).evaluate({})
+            d = ((Pipeline() + step) + q).transform("x", {})
+            outs.append((a, b, c, d))
+            ctx.evaluations += 4
+            ctx.count("stateful_step_evaluations", 4)
+        want = ("q", (tag, "x", 1))
+        if any(v != want for row in outs for v in row):
+            ctx.violation("stateful-step-shares-state", f"{name}: (p + q).transform / q.transform(p.transform) / source >> pipeline / re-bracketed, three rounds: {outs}; every one should be {want}", W)
+            return
+        mapped = [list(F.map(step).transform(["a", "b"], {})) for _ in range(2)]
+        if mapped != [[(tag, "a", 1), (tag, "b", 2)]] * 2:
+            ctx.violation("stateful-step-shares-state", f"{name}: F.map(step) over two elements, twice: {mapped}", W)
+            return
+        if used() != 0:
+            ctx.violation("stateful-step-shares-state", f"{name}: the user's own object was applied {used()} time(s) (evaluations must work on copies)", W)
+            return
+        ctx.nontrivial(spec_hash(["stateful-step", name]))
+
+
 def pipeline_history(ctx, names, r, case):
     """Step parameters are read from the options of EACH evaluation: one long-lived pipeline (and source >> pipeline)
     over a hostile history - a dictionary equal to the previous one but differently typed, the same dictionary object
@@ -530,6 +589,7 @@ def run(ctx):
     if ctx.shard == 0:
         helpers(ctx)
         read_at_evaluation_time(ctx)
+        stateful_steps(ctx)
     k = 0
     max_exh = 3 if ctx.quick else 4
     for n in range(0, max_exh + 1):
@@ -548,7 +608,9 @@ def run(ctx):
 
 def replay(ctx, rep):
     w = rep["witness"]
-    if w.get("family") == "pipeline-history":
+    if w.get("family") == "stateful-steps":
+        stateful_steps(ctx)
+    elif w.get("family") == "pipeline-history":
         ctx.shard, ctx.shards = w.get("shard", 0), w.get("shards", 1)
         pipeline_history(ctx, w["steps"], case_rng(ctx, ("hist", w["case"])), w["case"])
     elif "steps" in w:
